@@ -17,6 +17,8 @@ def classify(op, R):
         k = "valid" if (w >= 1 and h >= 1 and 0 <= ss < 7 and al >= 1 and al & (al - 1) == 0) else "invalid"
         big = "big" if max(w, h) > 1 << 20 else "small"
         return "yuvgeom:%s:%s" % (k, big)
+    if p[0] == "yuvcontent":
+        return "yuvcontent:ss%s:sf%s:stride%s" % (p[3], p[4], p[6])
     return p[0]
 
 
@@ -43,6 +45,14 @@ def gen_ops(rng, tier):
         ops.append("yuvgeom %d %d %d %d %d" % (w, h, al, ss, st))
         if i % 2 == 0:
             ops.append("jbuf %d %d %d" % (w, h, ss))
+    # pixel equalities on the real library (model: skip)
+    for i in range(1200 if big else 220):
+        w = rng.choice([1, 2, 7, 8, 9, 15, 16, 17, 23, 31, 32, 33, 40, 47, 48, 64, 65])
+        h = rng.choice([1, 2, 7, 8, 9, 15, 16, 17, 23, 31, 32, 33, 40, 47, 48, 64, 65])
+        ss = rng.randrange(7)
+        sfi = rng.randrange(16) if rng.random() < .75 else 8
+        pf = rng.choice([0, 1, 2, 3, 4, 5, 7, 8, 9, 10, 6])
+        ops.append("yuvcontent %d %d %d %d %d %d %d %d" % (w, h, ss, sfi, pf, rng.randrange(5), rng.choice([1, 2, 4, 8, 16, 32]), rng.randrange(1 << 30)))
     for d in [1, 2, 3, 7, 8, 9, 15, 16, 17, 100, 227, 65500, 1 << 20] + [rng.randint(1, 1 << 24) for _ in range(60 if big else 15)]:
         ops.append("scaled %d" % d)
     return ops
